@@ -26,7 +26,10 @@ FLOORS = {'quick': {'pairs': 450, 'pixels_judged': 2500000, 'single_layer_reques
                     'pruned_requests_observed': 40, 'opacity_layers': 200, 'colorkey_layers': 110, 'clip_layers': 70,
                     'group_requests': 80, 'cache_layers': 100, 'alpha_judged': 180, 'res_hidden_layers': 170,
                     'fmt_png8': 60, 'fmt_jpeg': 60, 'fmt_tiff': 70},
-          'thorough': {'pairs': 450}}
+          'thorough': {'pairs': 11000, 'pixels_judged': 65000000, 'single_layer_requests': 5600,
+                       'combined_requests_observed': 1900, 'pruned_requests_observed': 780, 'opacity_layers': 4000,
+                       'colorkey_layers': 3200, 'clip_layers': 2000, 'group_requests': 2000, 'cache_layers': 2900,
+                       'alpha_judged': 4900, 'res_hidden_layers': 3800, 'fmt_png8': 1700, 'fmt_jpeg': 1600, 'fmt_tiff': 1600}}
 RULE = ("case = one generated configuration (3-7 direct WMS sources, 0-2 png caches, 3-8 named layers incl. groups) with "
         "8-12 GetMap requests of 1-5 layers; every request is issued against the plain and the defeated twin "
         "configuration (= one pair) and both answers are compared with the reference composition and with each other. "
@@ -1009,6 +1012,17 @@ def one_request(run, case, spec, scp, sct, req, d):
     else:
         run.count('diagnosis_cut_short')
     run.violation(mech, {'i': case['i'], 'spec': sp2, 'requests': [rq2]}, describe(sp2, rq2, r2))
+
+
+def evidence_extra(total):
+    """the whole histogram of violation mechanisms (core prints only the 40 most frequent ones)"""
+    import json
+    mechs = []
+    for k, n in total.viol_mechs.most_common(300):
+        m = json.loads(k)
+        m['count'] = n
+        mechs.append(m)
+    return {'violation_mechanisms': mechs} if mechs else {}
 
 
 def gen_cases(run):
